@@ -313,7 +313,7 @@ class to_dataframe:
     }
 
 
-_DF = TFrame(("z", "y", "x", "zvec", "yvec", "xvec", "f0"), rows="df_rows")
+_DF = TFrame(("z", "y", "x", "zvec", "yvec", "xvec", "g1", "f0"), rows="df_rows")    # (features not in alphabetical order)
 _DF0 = TFrame(("z", "y", "x", "zvec", "yvec", "xvec"), rows="df_rows")
 
 
@@ -344,8 +344,9 @@ class from_dataframe:
     native_helpers = _NHD
     imports = _IMPORTS
     native_call = "_Molecules.from_dataframe(args['df'])"
-    native = {"count": "len(result) == args['df'].shape[0]", "invariant": "_native_invariant(result)",
-              "rows": "_native_mol_rows(result, args['df'])", "features": "True"}
+    native = {"count": "len(result) == df.shape[0]", "invariant": "_native_invariant(result)",
+              "rows": "_native_mol_rows(result, df)",
+              "features": "list(result.features.columns) == [c for c in df.columns if c not in ('z', 'y', 'x', 'zvec', 'yvec', 'xvec')]"}
     ensures = {
         "count": "n_of(result) == df.n",
         "invariant": "lengths_agree(result)",
